@@ -746,6 +746,7 @@ _BLOCK = re.compile(r"/\*@@(.*?)@@\*/", re.S)
 
 def generate(template_path, repo, canary=False, only_items=None):
     rules = []
+    opaque_names = []
     includes = []
     items_meta = []
     clauses_meta = []
@@ -762,6 +763,9 @@ def generate(template_path, repo, canary=False, only_items=None):
 
     def process(path, depth=0, force_trusted=False):
         text = open(path, encoding="utf-8").read()
+        for nm in opaque_names:
+            # hide a definition the proofs of this unit do not need (keeps the solver's query small); lemmas that need it `reveal` it
+            text = re.sub(r"(\n[ \t]*)(pub (?:closed|open) spec fn " + re.escape(nm) + r"\()", r"\1#[verifier::opaque]\1\2", text)
         rel = os.path.relpath(path, VERIF)
         pos = 0
         for m in _BLOCK.finditer(text):
@@ -778,9 +782,17 @@ def generate(template_path, repo, canary=False, only_items=None):
             if head.startswith("include "):
                 inc = head[len("include "):].strip()
                 ft = force_trusted
+                opq = []
+                while True:
+                    mo = re.search(r"\s+opaque:(\S+)$", inc)
+                    if not mo:
+                        break
+                    opq.append(mo.group(1))
+                    inc = inc[:mo.start()]
                 if inc.endswith(" trusted"):
                     inc = inc[:-len(" trusted")].strip()
                     ft = True
+                opaque_names.extend(opq)
                 includes.append(inc + (" (assumed here, proved in its own unit)" if ft and inc.startswith("contracts/") else ""))
                 process(os.path.join(VERIF, inc), depth + 1, ft)
                 continue
